@@ -13,14 +13,17 @@ T  (a) c2lean kernels (mju_clip, mju_max, mju_isBad, mju_sigmoid, mju_muscleGain
    (b) per-actuator / per-dof differential against the REAL engine: parameters and state are read from mjModel / mjData
        through harness/c/engine_repl.c, fed to drv_c27 (the Lean model of Model/Actuation.lean on Float) stage by stage
        (control stage INCLUDING the source of each control — d->ctrl or the history buffer mj_step filled while a random
-       control sequence was stepped through —, act_dot, next activation for actearly, unclamped force, tendon total-force limit, forcerange clamp, sparse moment' * force, joint
+       control sequence was stepped through —, act_dot, mj_nextActivation of EVERY activation against act after a real mj_step
+       from the same state (Euler / implicit integrators; also the actearly force input), unclamped force, tendon total-force limit, forcerange clamp, sparse moment' * force, joint
        post-processing) and compared BITWISE with act_dot, actuator_force and qfrc_actuator of mj_forward.
 S  property oracle on the engine alone: range predicates, qfrc_actuator = moment' * force (+ actuator-routed gravcomp,
    joint clamp) recomputed densely in Python (1e-12), clamp equivalence (controls beyond the limit act like controls at
    the limit — for the whole stepped control sequence when delayed reads do not interpolate), the control every actuator
    demonstrably USED (recovered from act_dot / actuator_force) inside ctrlrange, delayed or not, documented act_dot and
    affine law recomputed independently per actuator (delayed sample and next activation recomputed in Python),
-   activations inside actrange after mj_step, disabled groups give
+   activations inside actrange after 1 and after 21 mj_step calls from states whose limited activations start at, just
+   inside or beyond the bounds (every dyntype gets actlimited; filters are made exact half of the time), act after one
+   step = documented next activation, disabled groups give
    zero force, moment = d length / d qpos by finite differences (joint / tendon transmissions), documented anchor
    points of the muscle curves on the real kernels.
 """
@@ -33,7 +36,7 @@ from gen.enums import E
 from gen.models import ModelGen
 
 META = {
-    "technique": "hand-written executable Lean model of the per-actuator computations of mj_fwdActuation (source of every control: d->ctrl or, for a delayed actuator, mj_readCtrl / mju_historyRead of its history buffer with zero-order hold / linear / cubic interpolation; control clamp and bad-control zeroing AFTER that read; act_dot; actearly via mj_nextActivation; SISO gain/bias force law, disabled groups, tendon total-force limit, forcerange clamp, sparse moment-transpose product, actuator-routed gravcomp and joint actfrcrange clamp) over the law-free number class MjNum, built on c2lean-generated kernels (mju_clip, mju_max, mju_isBad, the five muscle kernels; regenerated and validated bitwise each run); documented formulas transcribed independently from doc/ into Spec/Muscle.lean; Lean 4 proofs over the reals (case splits on the spline knots, field_simp/ring, linarith, list induction for the sparse product); bitwise stage-by-stage differential of the Float instance against act_dot / actuator_force / qfrc_actuator of the real mj_forward on generated models (joint, tendon, site and slider-crank transmissions; actuators with control delays / history buffers of 1..7 samples and all three interpolation orders, filled by stepping a random control sequence through the real mj_step; actearly); independent property oracle in Python and on the real kernels",
+    "technique": "hand-written executable Lean model of the per-actuator computations of mj_fwdActuation (source of every control: d->ctrl or, for a delayed actuator, mj_readCtrl / mju_historyRead of its history buffer with zero-order hold / linear / cubic interpolation; control clamp and bad-control zeroing AFTER that read; act_dot; actearly via mj_nextActivation; SISO gain/bias force law, disabled groups, tendon total-force limit, forcerange clamp, sparse moment-transpose product, actuator-routed gravcomp and joint actfrcrange clamp) over the law-free number class MjNum, built on c2lean-generated kernels (mju_clip, mju_max, mju_isBad, the five muscle kernels; regenerated and validated bitwise each run); documented formulas transcribed independently from doc/ into Spec/Muscle.lean; Lean 4 proofs over the reals (case splits on the spline knots, field_simp/ring, linarith, list induction for the sparse product); bitwise stage-by-stage differential of the Float instance against act_dot / actuator_force / qfrc_actuator of the real mj_forward on generated models (joint, tendon, site and slider-crank transmissions; actuators with control delays / history buffers of 1..7 samples and all three interpolation orders, filled by stepping a random control sequence through the real mj_step; actearly; activation limits on every stateful kind with activations starting at / beyond the bounds, act after a real mj_step compared bitwise with the model's mj_nextActivation for every activation); independent property oracle in Python and on the real kernels",
     "text": "Proved over the reals for the model (all inputs): a limited control, clamped, lies in ctrlrange and every entry of the control vector the forces use is that clamped control or 0 when some control was bad; with control delays the clamped quantity is the SOURCE of the control (the history-buffer read for a delayed actuator, d->ctrl otherwise), hence a limited delayed control lies in ctrlrange for every buffer content (ctrlStageDelayed_entry, delayed_ctrl_in_range; without delays the stage reduces to the plain one, ctrlStageDelayed_nodelay; a zero-order-hold read returns a stored sample, historyRead_zoh_mem); with actearly the force input is mj_nextActivation, inside actrange when limited; mj_nextActivation keeps a limited activation in actrange (DC motors exempt, as coded); after the forcerange clamp the force lies in forcerange, after the joint clamp qfrc_actuator lies in actfrcrange, after the tendon rescaling the total force of the actuators on a tendon lies in its actfrcrange; fixed/affine gain with none/affine bias give p = a(w or u) + b0 + b1 l + b2 ldot; integrator and filter act_dot are the documented ones; the generated muscle kernels equal the documented scaled length/velocity, F0, F_V, the main bump of F_L (knots included) and the Millard activation dynamics (act in [0,1], hard switching); an actuator in a disabled group yields zero force through all later stages for every forcerange (the clamp loop skips disabled actuators); the sparse transpose product as coded equals the dense moment' * force. Tied to /repo on every run by translation (kernels) and the bitwise stage-by-stage differential against the real engine.",
     "note": "Stated over the reals (rounding outside the proofs; the Float instance is compared bitwise). Not modelled (filtered out of the differential / not generated): the WRITING of history buffers (mju_historyInsert in mj_advance; the buffers the real mj_step produced are read back and fed to the model), servo setpoint wrapping on ball joints / rotational sites, PID / DC-motor / SO3 actuators, plugins, callbacks, sleeping. Transmission geometry (actuator_length, actuator_moment of joint / tendon / site / slider-crank transmissions; body transmissions are not generated) is oracle-only (finite differences), as planned in DESIGN.md. The muscle theorems need non-degenerate parameters (every mjMAX(mjMINVAL, .) guard inactive; stated as hypotheses). FINDINGS: (1) documentation vs code: XMLreference documents fpmax as the passive force at lmax and doc/_static/FLV.m gives F_P(lmax) = fpmax, the code (C, MJX and Warp alike) gives 1.5 fpmax; FLV.m adds a second bump 0.15*bump(L, lmin, (lmin+0.95)/2, 0.95) to F_L that the code does not have (theorems muscleBias_differs_from_doc, muscleGainLength_differs_from_FLVm; oracle key c27:muscle-passive-force-at-lmax-differs-from-doc); (2) FIXED in /repo (ea3125434): the forcerange clamp used to be applied to actuators of disabled groups too, so a disabled actuator whose forcerange excluded 0 output the nearest bound instead of zero; model and theorem disabled_group_zero_force now follow the fixed code (zero force for every forcerange), the oracle key c27:disabled-actuator-nonzero-force stays and a directed regression input (group 0 disabled, forcerange [1, 2]) is evaluated on every run; (3) KNOWN (c27:ctrl-not-clamped:implicit-derivative): with implicit / implicitfast integrators a control beyond ctrlrange does not act like the control at the limit once a step is taken, because mjd_actuator_vel uses the raw d->ctrl (mj_fwdActuation itself clamps correctly: the same sequences are bitwise equivalent under Euler; same root cause as c25:qderiv:actuator:ctrl-outside-ctrlrange).",
 }
@@ -125,6 +128,19 @@ def make_model(ctx):
     handles = [l.split()[1] for l in lines if l.split()[0] == "actuator"]
     stateful = {l.split()[1] for l in lines if l.startswith("set ") and l.split()[2] == "dyntype"}
     info.update({"delayed": 0, "history_without_delay": 0, "actearly": 0, "interp": {}, "delay_steps": []})
+    # activation limits on every kind of stateful actuator (the generator limits few of them) and exact filters
+    info.update({"actlimited_added": 0, "filter_made_exact": 0})
+    limited = {l.split()[1] for l in lines if l.startswith("set ") and l.split()[2] == "actlimited"}
+    for k_, l in enumerate(lines):
+        t = l.split()
+        if t[0] == "set" and t[2] == "dyntype" and int(t[3]) == E("mjDYN_FILTER") and rng.random() < 0.5:
+            lines[k_] = "set %s dyntype %d" % (t[1], E("mjDYN_FILTEREXACT"))
+            info["filter_made_exact"] += 1
+    for h in handles:
+        if h in stateful and h not in limited and rng.random() < 0.6:
+            lo = rng.choice((0.0, -rng.uniform(0.1, 1.0)))
+            lines += ["set %s actlimited %d" % (h, E("mjLIMITED_TRUE")), "set %s actrange %r %r" % (h, lo, lo + rng.uniform(0.2, 1.5))]
+            info["actlimited_added"] += 1
     for h in handles:
         r = rng.random()
         if r < 0.4:
@@ -140,6 +156,13 @@ def make_model(ctx):
         if h in stateful and rng.random() < 0.35:
             lines.append("set %s actearly 1" % h)
             info["actearly"] += 1
+    rng_of = {}
+    for l in lines:
+        t = l.split()
+        if t[0] == "set" and t[2] == "actrange":
+            rng_of[t[1]] = (float(t[3]), float(t[4]))
+    lim_now = {l.split()[1] for l in lines if l.startswith("set ") and l.split()[2] == "actlimited"}
+    info["act_ranges"] = [rng_of.get(h) if h in lim_now else None for h in handles if h in stateful]
     if rng.random() < 0.6:
         lines.append("option disableactuator %d" % rng.randint(1, 31))
     mdl.clampdisabled = rng.random() < 0.15
@@ -197,6 +220,8 @@ MODEL_FIELDS = ("actuator_gaintype", "actuator_biastype", "actuator_dyntype", "a
                 "body_gravcomp", "opt.disableactuator", "opt.disableflags", "opt.integrator", "opt.enableflags", "opt.gravity", "opt.timestep")
 DATA_FIELDS = ("ctrl", "act", "act_dot", "actuator_force", "actuator_length", "actuator_velocity", "actuator_moment", "moment_rownnz",
                "moment_rowadr", "moment_colind", "qfrc_actuator", "qfrc_gravcomp", "qpos", "history", "time")
+WARN_BAD = [E(w) for w in ("mjWARN_BADQPOS", "mjWARN_BADQVEL", "mjWARN_BADQACC", "mjWARN_BADCTRL")]
+INT_RK4 = E("mjINT_RK4")
 
 
 class Snap:
@@ -372,9 +397,22 @@ def lean_differential(ctx, drv, s, stats, mism, ident, rp=None):
         actdot[i] = o
     early = [i for i in stateful if s.actearly[i]]
     linesB2 = ["nextact %d %d %s %s %s %s %s %s" % (s.dyntype[i], 1 if s.actlimited[i] else 0, arb[2 * i], arb[2 * i + 1], dp[10 * i], tsb,
-                                                    ab[s.actadr[i]], actdot[i]) for i in early]
-    nxt = dict(zip(early, call(linesB2))) if linesB2 else {}
+                                                    ab[s.actadr[i]], actdot[i]) for i in stateful]
+    nxt_all = dict(zip(stateful, call(linesB2))) if linesB2 else {}
+    nxt = {i: nxt_all[i] for i in early}
     stats["actearly_inputs"] += len(early)
+    # mj_nextActivation of EVERY activation against the real mj_step from this state (Euler / implicit integrators: mj_advance
+    # applies it to (act, act_dot) of this very state; act_dot := 0 for an actuator of a disabled group; RK4 combines stages)
+    if getattr(s, "act1_bits", None) is not None and s.integrator != INT_RK4:
+        zb = fbits(0.0)
+        dis = [i for i in stateful if s.disabled(i)]
+        linesB3 = ["nextact %d %d %s %s %s %s %s %s" % (s.dyntype[i], 1 if s.actlimited[i] else 0, arb[2 * i], arb[2 * i + 1], dp[10 * i], tsb,
+                                                        ab[s.actadr[i]], zb) for i in dis]
+        nd = dict(zip(dis, call(linesB3))) if linesB3 else {}
+        for i in stateful:
+            compare("act[%d] after mj_step (%s%s%s)" % (s.actadr[i], DYN[s.dyntype[i]], ", actlimited" if s.actlimited[i] else "", ", disabled group" if i in nd else ""),
+                    nd.get(i, nxt_all[i]), s.act1_bits[s.actadr[i]], (linesB3[dis.index(i)] if i in nd else linesB2[stateful.index(i)]))
+            stats["nextact_compared"] += 1
     linesB = []
     for i in range(s.nact):
         inp = (nxt[i] if i in nxt else ab[s.actadr[i]]) if s.actnum[i] == 1 else u[s.ctrladr[i]]
@@ -706,6 +744,33 @@ def oracle(s, fail, rp, stats, extra):
                     fail("c27:act-outside-actrange", "actuator %d: act = %r after mj_step, actrange [%r, %r]" % (i, a, s.actrange[2 * i], s.actrange[2 * i + 1]),
                          dict(rp, actuator=i))
                     return
+    # O6b from exactly this state: act after one mj_step and after 21 (control held) inside actrange; O13 act after one
+    #     step = documented next activation (Euler; exact for filterexact), clamped to actrange (Euler / implicit integrators)
+    for tag, arr in (("1 mj_step", s.act1), ("21 mj_step calls", s.act21)):
+        if arr is None:
+            continue
+        for i in range(s.nact):
+            if s.actnum[i] == 1 and s.actlimited[i] and s.dyntype[i] != E("mjDYN_DCMOTOR") and s.modelled(i):
+                a = arr[s.actadr[i]]
+                stats["actrange_checked"] += 1
+                stats["actrange_checked_after_21_steps"] += 1 if arr is s.act21 else 0
+                if not (s.actrange[2 * i] <= a <= s.actrange[2 * i + 1]):
+                    fail("c27:act-outside-actrange", "actuator %d (%s%s): act = %r after %s from the replay state (act before = %r), actrange [%r, %r]"
+                         % (i, DYN.get(s.dyntype[i]), ", actearly" if s.actearly[i] else "", a, tag, s.act[s.actadr[i]], s.actrange[2 * i], s.actrange[2 * i + 1]),
+                         dict(rp, actuator=i, then="`step 0` (then `step 0 20`), `num 0 act`"))
+                    return
+    if s.act1 is not None and s.integrator != INT_RK4:
+        for i in range(s.nact):
+            if not (s.actnum[i] == 1 and s.modelled(i) and DYN.get(s.dyntype[i]) in ("integrator", "filter", "filterexact")) or s.disabled(i):
+                continue
+            e, a = py_next_act(s, i), s.act1[s.actadr[i]]
+            sc = abs(e) + abs(a) + abs(s.act[s.actadr[i]]) + 1e-9
+            stats["nextact_law_checked"] += 1
+            if abs(e - a) > 1e-10 * sc:
+                fail("c27:nextact-law", "actuator %d (%s%s): act after one mj_step = %r, documented next activation (clamped to actrange when limited) = %r "
+                     "(act %r, act_dot %r, timestep %r)" % (i, DYN.get(s.dyntype[i]), ", actlimited" if s.actlimited[i] else "", a, e, s.act[s.actadr[i]],
+                                                            s.act_dot[s.actadr[i]], s.timestep), dict(rp, actuator=i, then="`step 0`, `num 0 act`"))
+                return
     # O10 moment = d length / d qpos (scalar joints; joint / tendon transmissions)
     for (i, k, dl) in extra.get("fd", []):
         m = 0.0
@@ -730,7 +795,8 @@ def run_models(ctx, exe, drv, nmodels):
              "delayed_reads": 0, "actearly_inputs": 0, "effective_ctrl_checked": 0, "effective_ctrl_checked_delayed": 0,
              "affine_law_checked_delayed": 0, "affine_law_checked_actearly": 0, "actdot_law_checked": 0, "actdot_law_checked_delayed": 0, "models_with_history": 0, "preroll_steps": {},
              "delayed_actuators": 0, "history_without_delay": 0, "actearly_actuators": 0, "interp": {}, "delay_in_timesteps": {},
-             "clamp_equivalence_skipped_interpolating": 0}
+             "clamp_equivalence_skipped_interpolating": 0, "act_at_or_beyond_bound": 0, "nextact_compared": 0, "nextact_law_checked": 0,
+             "actrange_checked_after_21_steps": 0, "steps_with_bad_warnings_skipped": 0, "limited_activations": 0, "dyn_limited": {}}
     failures, mism = {}, []
     drv = LeanDrv(drv)
 
@@ -750,6 +816,15 @@ def run_models(ctx, exe, drv, nmodels):
         def rctrl():
             return [rng.choice((rng.uniform(-1.5, 1.5), rng.uniform(-3, 3), 0.0, 1.0, -1.0, 2.0)) for _ in range(mdl.nu)]
         st["ctrl"] = rctrl()
+        # activations: half of the limited ones start at, just inside or beyond a bound of actrange
+        ar = mdl.info["act_ranges"]
+        if len(ar) == len(st["act"]):
+            for k_, r_ in enumerate(ar):
+                if r_ is not None and rng.random() < 0.5:
+                    lo_, hi_ = r_
+                    w_ = hi_ - lo_
+                    st["act"][k_] = rng.choice((lo_, hi_, lo_ + 1e-3 * w_, hi_ - 1e-3 * w_, lo_ - rng.uniform(0, 0.3), hi_ + rng.uniform(0, 0.3)))
+                    stats["act_at_or_beyond_bound"] += 1
         # models with history buffers: a control sequence is stepped through first (mj_step fills the buffers with the raw controls)
         has_hist = mdl.info["delayed"] + mdl.info["history_without_delay"] > 0
         pre = [rctrl() for _ in range(rng.choice((0, 1, 2, 3, 5, 8, 12)))] if has_hist else []
@@ -769,6 +844,15 @@ def run_models(ctx, exe, drv, nmodels):
         R.cmd("forward 0", "fwd")
         for f in DATA_FIELDS:
             R.cmd("get 0 " + f, ("s0", f))
+        # one mj_step from exactly this state (act must become mj_nextActivation(act, act_dot)), then 20 more with the control held
+        R.cmd("step 0", "step1")
+        R.cmd("get 0 act", "act1")
+        for w in WARN_BAD:
+            R.cmd("scalar 0 warn.%d" % w, ("w1", w))
+        R.cmd("step 0 20", "step21")
+        R.cmd("get 0 act", "act21")
+        for w in WARN_BAD:
+            R.cmd("scalar 0 warn.%d" % w, ("w21", w))
         rc, out, res, err = R.run()
         rp = {"model": text, "state": {k: st[k] for k in ("qpos", "qvel", "act", "ctrl")}, "preroll_ctrl": pre,
               "how": "feed `model` + description, then `data 0`, `set 0 qpos|qvel|act ...`, for every vector of preroll_ctrl `set 0 ctrl ...` + `step 0`, "
@@ -799,6 +883,18 @@ def run_models(ctx, exe, drv, nmodels):
                 stats[nm][tab.get(val, str(val))] = stats[nm].get(tab.get(val, str(val)), 0) + 1
             stats["trn_types"][str(s.trntype[i])] = stats["trn_types"].get(str(s.trntype[i]), 0) + 1
         # ---- T: stage-by-stage bitwise differential
+        clean1 = not res["step1"].startswith("error") and all(res[("w1", w)].strip() == "0" for w in WARN_BAD)
+        clean21 = clean1 and not res["step21"].startswith("error") and all(res[("w21", w)].strip() == "0" for w in WARN_BAD)
+        if not clean21:
+            stats["steps_with_bad_warnings_skipped"] += 1
+        s.act1_bits = toks(res["act1"]) if clean1 else None
+        s.act1 = F(res["act1"]) if clean1 else None
+        s.act21 = F(res["act21"]) if clean21 else None
+        for i in range(s.nact):
+            if s.actnum[i] == 1 and s.actlimited[i]:
+                stats["limited_activations"] += 1
+                d_ = DYN.get(s.dyntype[i], str(s.dyntype[i]))
+                stats["dyn_limited"][d_] = stats["dyn_limited"].get(d_, 0) + 1
         lean_differential(ctx, drv, s, stats, mism, mi, rp)
         # ---- follow-up engine runs for the oracle
         extra = {}
